@@ -236,6 +236,31 @@ func mutationsOf(bi int, base []byte, tier string, r *RNG) []mutation {
 			}
 		}
 	}
+	// headers that are wrong but *internally consistent*: a descriptor count with the table size
+	// (and the data offset, and the data size) that such a table would have — nothing in the
+	// header contradicts anything else in it, only the file is far too short
+	le := func(v int64) []byte {
+		b := make([]byte, 8)
+		binary.LittleEndian.PutUint64(b, uint64(v))
+		return b
+	}
+	for _, n := range []int64{49, 1 << 10, 1 << 14, 1 << 17, 1 << 20, 1 << 24, 1 << 28, 1 << 31, 1 << 36, 1 << 44, (1 << 53) / 585} {
+		tot, sz := le(n), le(n*585)
+		ms = append(ms, mutation{Base: bi, Kind: "set", Sets: []setSpec{{88, tot}, {104, sz}}, Desc: fmt.Sprintf("header DescriptorsTotal = %d with DescriptorsSize = 585*that", n)})
+		ms = append(ms, mutation{Base: bi, Kind: "set", Sets: []setSpec{{88, tot}, {104, sz}, {112, le(int64(doff) + n*585)}},
+			Desc: fmt.Sprintf("header DescriptorsTotal = %d with consistent DescriptorsSize and DataOffset", n)})
+		ms = append(ms, mutation{Base: bi, Kind: "set", Sets: []setSpec{{88, tot}, {80, tot}, {104, sz}, {112, le(int64(doff) + n*585)}, {120, le(0)}},
+			Desc: fmt.Sprintf("header of an empty image with %d descriptors (free = total, consistent size and data offset)", n)})
+	}
+	// … and descriptors likewise: a size with its padded size, at an offset inside the data section
+	for _, s := range slots {
+		o := doff + s*585
+		off := int64(binary.LittleEndian.Uint64(base[o+17:]))
+		for _, n := range []int64{1 << 16, 1 << 20, 1 << 26, 1 << 31, 1 << 40, math.MaxInt64 - off} {
+			ms = append(ms, mutation{Base: bi, Kind: "set", Sets: []setSpec{{o + 25, le(n)}, {o + 33, le(n)}, {120, le(off + n - int64(binary.LittleEndian.Uint64(base[112:])))}},
+				Desc: fmt.Sprintf("descriptor %d Size = SizeWithPadding = %d, header DataSize extended to cover it", s, n)})
+		}
+	}
 	// truncations and noise
 	for _, n := range []int{0, 1, 127, 128, 129, doff, doff + 1, doff + 584, doff + 585, doff + 586, len(base) - 1, len(base) / 2} {
 		if n >= 0 && n < len(base) {
@@ -572,6 +597,8 @@ func decideHostile(prop, tier string, seed uint64, scratch, replays string) *Out
 	getUniverse()
 	self, _ := os.Executable()
 	basePaths, baseNames := hostileBases(scratch, seed, tier)
+	cp, cn := craftedSignatureImages(scratch, seed, tier)
+	basePaths, baseNames = append(basePaths, cp...), append(baseNames, cn...)
 	r := NewRNG(seed)
 	var jobs []mutation
 	dist := map[string]int{}
@@ -580,6 +607,10 @@ func decideHostile(prop, tier string, seed uint64, scratch, replays string) *Out
 		b, _ := os.ReadFile(p)
 		baseBytes = append(baseBytes, b)
 		ms := mutationsOf(bi, b, tier, r)
+		if strings.HasPrefix(baseNames[bi], "crafted:") {
+			// validly signed, unusual metadata: the image itself is the hostile input
+			ms = ms[:1]
+		}
 		if strings.HasPrefix(baseNames[bi], "shipped:") && tier != "thorough" {
 			// the corpus images have 48 slots: bit flips of the header and first descriptors, singles, a pair sample
 			var keep []mutation
@@ -608,6 +639,9 @@ func decideHostile(prop, tier string, seed uint64, scratch, replays string) *Out
 			if m.Desc == "random bytes" {
 				k = "noise"
 			}
+		}
+		if strings.HasPrefix(baseNames[m.Base], "crafted:") {
+			k = "validly-signed-crafted-metadata"
 		}
 		dist["mutation:"+k]++
 	}
@@ -658,7 +692,7 @@ func decideHostile(prop, tier string, seed uint64, scratch, replays string) *Out
 	}
 	dist["max-battery-ms"] = int(maxMs)
 	dist["max-load-alloc-per-input-byte-x100"] = int(maxRatio * 100)
-	o := &Output{Property: prop, Tier: tier, Seed: seed, Campaign: "hostile inputs in memory-limited child processes: " + strings.Join(baseNames, ", "),
+	o := &Output{Property: prop, Tier: tier, Seed: seed, Campaign: "hostile inputs in memory-limited child processes: " + campaignBases(baseNames),
 		Evaluations: len(jobs), Distinct: len(jobs), Traces: 0,
 		Rule:    "every enumerated mutation is a distinct input (single-bit flips of header+descriptors, boundary grid singly and in pairs, truncations, noise); each runs LoadContainer and, when it loads, every read-only API, signer listing, six verification flavours and siftool header/list/info/dump",
 		Samples: []string{}, Distribution: dist}
@@ -805,4 +839,18 @@ func hostileCorrespondence(scratch string, jobs []mutation, results []*jobResult
 	})
 	dist["correspondence:inputs"] = traces
 	return
+}
+
+// campaignBases names the base images; the crafted ones are counted, not listed.
+func campaignBases(names []string) string {
+	var plain []string
+	crafted := 0
+	for _, n := range names {
+		if strings.HasPrefix(n, "crafted:") {
+			crafted++
+		} else {
+			plain = append(plain, n)
+		}
+	}
+	return fmt.Sprintf("%s, and %d images whose signature by a trusted key covers crafted metadata (members deleted / retyped / duplicated)", strings.Join(plain, ", "), crafted)
 }
